@@ -9,6 +9,7 @@ Streams
 Oracle (Python, on the implementation's observables only): C18 as stated.
 """
 import json
+import re
 import os
 from datetime import datetime, timedelta
 from decimal import Decimal
@@ -175,7 +176,20 @@ def gen_project(rng, force=None):
         rtf = ""
     leaf_only = None if rng.random() < 0.5 else rng.random() < 0.6
     formats = rng.choice([None, ["json"], ["csv"], ["json", "csv"], ["csv", "json"], ["json", "json"]])
+    # a report about a later scenario of a project with two scenarios: its cells are that scenario's values
+    scen_hdr, scenario = "", 0
+    if rng.random() < 0.2:
+        scen_hdr = ' scenario plan "Plan" { scenario delayed "Delayed" }'
+        k = 0
+        for i, l in enumerate(lines):
+            m = re.search(r"effort (\d+)(h|d|min) allocate", l)
+            if m and "allocate slow" not in l and rng.random() < 0.6:
+                lines[i] = l.replace(m.group(0), f"effort {m.group(1)}{m.group(2)} delayed:effort {int(m.group(1)) + rng.choice([1, 2, 5])}{m.group(2)} allocate", 1)
+                k += 1
+        scenario = 1 if rng.random() < 0.8 else 0
     rep = ['taskreport rep "rep" {']
+    if scen_hdr:
+        rep.append("  scenarios " + ("delayed" if scenario == 1 else "plan"))
     if formats:
         rep.append("  formats " + ", ".join(formats))
     rep.append("  columns " + ", ".join(cols))
@@ -184,11 +198,11 @@ def gen_project(rng, force=None):
     if leaf_only is not None:
         rep.append("  leaftasksonly " + ("true" if leaf_only else "false"))
     rep.append("}")
-    head = f'project p "P" 2025-01-{start_day:02d} {period} {{' + (f' timeformat "{ptf}"' if ptf is not None else "") + " }"
+    head = f'project p "P" 2025-01-{start_day:02d} {period} {{' + (f' timeformat "{ptf}"' if ptf is not None else "") + scen_hdr + " }"
     tjp = "\n".join([head] + lines + rep) + "\n"
     spec = {"columns": [{"id": c, "title": t} for c, t in zip(cols, titles)], "timeFormat": rtf,
             "projectTimeformat": ptf, "leafTasksOnly": bool(leaf_only), "formats": formats or ["json"]}
-    return {"tjp": tjp, "spec": spec, "titles": titles}
+    return {"tjp": tjp, "spec": spec, "titles": titles, "scenario": scenario}
 
 
 def gen_fmt_lines(rng, n):
@@ -440,7 +454,7 @@ def known_status():
 
 def run_cases(chk, cases, configs):
     """implementation run + model run + comparison + oracle for `cases`; returns (disagreements, failures)"""
-    lines = [jline({"op": "rep_run", "tjp": c["tjp"], "titles": c["titles"], "times": 3}) for c in cases]
+    lines = [jline({"op": "rep_run", "tjp": c["tjp"], "titles": c["titles"], "times": 3, "scenario": c.get("scenario", 0)}) for c in cases]
     by_cfg = {}
     for i, c in enumerate(cases):
         by_cfg.setdefault(configs(i), []).append(i)
